@@ -386,6 +386,7 @@ class C10Engine:
             real = realize(world, env.C, env.renderers, via_add=True)
         self.real = real
         self.kinds = {h: d["kind"] for h, d in world.m.items()}
+        self.note_groups: Dict[str, set] = {}
 
     def count(self, k: str, n: int = 1) -> None:
         self.counters[k] = self.counters.get(k, 0) + n
@@ -402,7 +403,9 @@ class C10Engine:
         # elements first, the database last: an element-level rendering must not depend on a database-level
         # rendering having been evaluated (successfully) just before
         # (every other comparison evaluates the database first instead: the usual order of a caller)
-        for h in sorted(self.w.m, key=lambda x: (self.kinds[x] == "db") != db_first):
+        order = list(self.w.m)
+        random.Random(getattr(self, "ncompare", 0) * 7919 + 1).shuffle(order)   # same order for both sides
+        for h in sorted(order, key=lambda x: (self.kinds[x] == "db") != db_first):
             o = objs[h]
             k = self.kinds[h]
             for lang in ("sql", "dbml"):
@@ -429,6 +432,11 @@ class C10Engine:
         a = self.render_all(self.real, db_first=self.ncompare % 2 == 0)
         b = self.render_all(fresh, db_first=self.ncompare % 2 == 0)
         self.count("probe:compared-with-fresh-rebuild")
+        for h, grp in self.note_groups.items():
+            if len(grp) > 1:
+                for lang in ("sql", "dbml"):
+                    a.pop(f"{h}.note.{lang}", None)
+                    b.pop(f"{h}.note.{lang}", None)
         if a != b:
             bad = [k for k in b if a.get(k) != b[k]]
             k0 = next((k for k in bad if not k.startswith(self.db + ".")), bad[0])
@@ -541,6 +549,10 @@ class C10Engine:
         elif k == "glitch":
             if op[1] not in m or m[op[1]]["kind"] != "column":
                 return "not a column"
+        elif k == "share_note":
+            a, b = op[1], op[2]
+            if a not in m or b not in m or a == b or m[a]["kind"] != "column" or m[b]["kind"] != "column":
+                return "needs two columns"
         elif k == "expr_text":
             h = op[1]
             if h not in m:
@@ -645,10 +657,16 @@ class C10Engine:
         elif k == "note":
             _, h, text, via = op
             m[h]["note"] = text
+            grp = self.note_groups.get(h)
             if via == "setter":
                 real[h].note = C.Note(text)
+                if grp:
+                    grp.discard(h)
+                    self.note_groups.pop(h, None)
             else:
                 real[h].note.text = text
+                for x in (grp or ()):     # the same Note object is the note of these elements too
+                    m[x]["note"] = text
         elif k == "item":
             _, e, n, field, value = op
             m[e]["items"][n][field] = value
@@ -750,6 +768,18 @@ class C10Engine:
             m[self.db][lst].append(h)
             m[h]["db"] = self.db
             real[self.db].add(real[h])
+        elif k == "share_note":
+            # one Note object becomes the note of a second column as well (col_b.note = col_a.note)
+            a, b = op[1], op[2]
+            real[b].note = real[a].note
+            m[b]["note"] = m[a]["note"]
+            grp = self.note_groups.get(a) or {a}
+            old = self.note_groups.get(b)
+            if old:
+                old.discard(b)
+            grp.add(b)
+            for x in grp:
+                self.note_groups[x] = grp
         elif k == "glitch":
             # a required attribute is missing for a moment, a database-level rendering is attempted (and
             # refused), the attribute is restored: the model is what it was
@@ -954,6 +984,11 @@ def draw_op(rng: random.Random, eng: C10Engine) -> List[Any]:
         if rr < 0.12:
             cols = [c for t in tables for c in m[t]["cols"]]
             return ["glitch", rng.choice(cols), rng.choice(["type", "name"])]
+        if rr < 0.18 and rng.random() < 0.5:
+            cols = [c for t in tables for c in m[t]["cols"]]
+            if len(cols) > 1:
+                a, b = rng.sample(cols, 2)
+                return ["share_note", a, b]
         exprs = [(c, 0) for t in tables for c in m[t]["cols"] if isinstance(m[c]["default"], list)] + \
                 [(i, k) for t in tables for i in m[t]["idxs"] for k, sb in enumerate(m[i]["subjects"]) if sb[0] == "expr"]
         if exprs and rr < 0.16:
